@@ -123,6 +123,50 @@ pub fn budget_drive(args: &[String]) {
         }
         budgets.sort();
         budgets.dedup();
+        // one VM used twice: first with a large budget (most of it is left over), then with a budget below what the program needs
+        if k >= 4 {
+            w.begin(id, &json!({"id": id, "profile": profile, "prog": pj["prog"], "budget": "reused vm"}));
+            let small = k / 2;
+            match guarded(|| {
+                verif::reset(true);
+                let mut vm = make_vm(&p, &RunCfg { max_instr: 1_000_000 });
+                let r1 = vm.run(&compiled);
+                let o1 = observation(&vm, &compiled, &r1);
+                vm.clear();
+                vm.max_instr = small;
+                let r2 = vm.run(&compiled);
+                let ev = verif::take_events();
+                verif::reset(false);
+                let out2 = match &r2 {
+                    Ok(()) => "Ok".to_string(),
+                    Err(e) if format!("{:?}", e.payload).contains("Timeout") => "Timeout".to_string(),
+                    Err(e) => format!("Err:{}", payload_kind(&e.payload)),
+                };
+                let _ = o1;
+                (ev, out2)
+            }) {
+                Ok((ev, out2)) => {
+                    // the events of both runs: each RunStart carries the budget of its run; the outcome of the first is the reference's
+                    let mut first = true;
+                    let mut cur: Vec<Event> = vec![];
+                    for e in ev {
+                        let end = matches!(e, Event::RunEnd { .. });
+                        cur.push(e);
+                        if end {
+                            let (o, d) = if first { (out0.clone(), dig0.clone()) } else { (out2.clone(), "reused".to_string()) };
+                            for r in budget_events(&cur, &o, &d) {
+                                // the digest of the second run is not compared (k/2 < k: it must time out)
+                                w.line(r);
+                            }
+                            cur.clear();
+                            first = false;
+                        }
+                    }
+                    w.end(json!({"e": "Note", "case": id, "budget": "reused vm"}));
+                }
+                Err(msg) => w.end(json!({"e": "Panic", "case": id, "msg": msg, "n": "reused vm"})),
+            }
+        }
         for b in budgets {
             w.begin(id, &json!({"id": id, "profile": profile, "prog": pj["prog"], "budget": b}));
             match guarded(|| run_with_budget(&p, &compiled, b)) {
